@@ -3,14 +3,15 @@ from orchestrate.common import run_check
 
 def _ops(line):
     case = line.split("|")[0].split()
-    return [t for t in case if t[:2] in ("X/", "B/", "E/", "F/")]
+    return [t for t in case if t[:2] in ("X/", "B/", "E/", "F/", "I/")]
 
 
 def _extra(lines, verdicts):
     """Histogram of what the histories contained (from the recorded exchanges)."""
     h = {"histories": len(lines), "ext": 0, "generic_server": 0, "client_calls": 0, "events": 0,
          "unprepared_answers": 0, "reprepares": 0, "id_changed": 0, "new_metadata_id_rows": 0,
-         "no_metadata_rows": 0, "batches": 0, "paged_calls": 0, "resends": 0, "nodes": {}}
+         "no_metadata_rows": 0, "batches": 0, "paged_calls": 0, "pager_calls": 0, "pager_pages": 0, "resends": 0,
+         "nodes": {}}
     for ln in lines:
         parts = ln.split("|")
         case = parts[0].split()
@@ -20,7 +21,9 @@ def _extra(lines, verdicts):
             h["nodes"][case[2]] = h["nodes"].get(case[2], 0) + 1
         ops = _ops(ln)
         h["generic_server"] += any(o.startswith("F/") for o in ops)
-        h["client_calls"] += sum(o[0] in "XB" for o in ops)
+        h["client_calls"] += sum(o[0] in "XBI" for o in ops)
+        h["pager_calls"] += sum(o[0] == "I" for o in ops)
+        h["pager_pages"] += sum(int(t[3:], 16) for t in obs.split() if t.startswith("OI/"))
         h["batches"] += sum(o[0] == "B" for o in ops)
         h["events"] += sum(o[0] == "E" for o in ops)
         h["paged_calls"] += sum(o[0] == "X" and o.split("/")[4] != "~" for o in ops)
@@ -37,16 +40,16 @@ SPEC = {
     "pid": "C14",
     "coq_targets": ["Props/C14.vo", "Extract/ExC14.vo"],
     "bin": "c14",
-    "sizes": {"quick": 600, "thorough": 15000},
-    "search_n": 6000,
+    "sizes": {"quick": 1200, "thorough": 50000},
+    "search_n": 10000,
     "runner_timeout": 3000,
     "rule": ("one case = one seeded history against a fresh mock cluster (1-3 nodes, with/without the metadata-id "
              "extension, 1-3 prepared statements with 2-4 schema versions each) and a real Session: 4-15 ops out of "
-             "execute / single-page execute / batch (random node, use_cached_result_metadata, consistency, serial "
+             "execute / single-page execute / execute_iter (pager, 1-3 pages) / batch (random node, use_cached_result_metadata, consistency, serial "
              "consistency, timestamp, page size, paging state) and node events {evicted, schema-changed, prepared, "
              "id-changing}; a quarter of the histories additionally force arbitrary (ill-behaved) answers. "
              "non-trivial = the history contains at least one client call; distinct = distinct case lines"),
-    "nontrivial": lambda ln: any(t[:2] in ("X/", "B/") for t in ln.split("|")[0].split()),
+    "nontrivial": lambda ln: any(t[:2] in ("X/", "B/", "I/") for t in ln.split("|")[0].split()),
     "trusted_base": [
         "mocknode (scripted CQL v4 server, own codec) and the runner's handler implementing the specification node; "
         "the Coq specification system re-computes every answer of the handler and the acceptor rejects a history in "
